@@ -43,8 +43,12 @@ def run_sort(spec):
                 res = sort_task_list(list(objs), TRULE[mode])
             elif fn == "workplace":
                 objs = list(m.wps)
+                from pDESy.model.base_facility import BaseFacilityState as _FS
                 for i, wp in enumerate(objs):
                     wp.max_space_size = vals["avail"][i] / 2
+                for k in vals.get("absent", []):
+                    if k <= len(m.facs):
+                        m.facs[k - 1].state = _FS.ABSENCE
                 res = sort_workplace_list(list(objs), PRULE[mode], name=name)
             else:
                 raise ValueError(fn)
